@@ -135,6 +135,9 @@ type Client struct {
 	// F3rids: rids on which an unsubscribe request was accepted on a provisional count
 	F3rids      map[string]bool
 	failedProps map[string]bool
+	// F3bRids: rids for which an unsubscribe event arrived while a request of
+	// this client on the same rid was in flight (known finding F-3b)
+	F3bRids map[string]bool
 	// getSet: rid -> index (in Frames) of the latest get response that delivered it
 	getSet map[string]int
 	// lostHolder: resources that stayed held when another held resource
@@ -150,7 +153,7 @@ type Client struct {
 
 func (s *Sim) newClient() *Client {
 	c := &Client{s: s, Idx: len(s.Clients), State: "new", Proto: protoLegacy, Reqs: map[uint64]*CReq{},
-		F3rids: map[string]bool{}, directSince: map[string]int{}, UnsubReasons: map[string]string{}, ErrSeen: map[string]bool{}, ivFail: map[string]string{}, getSet: map[string]int{}, lostHolder: map[string]bool{}, derivedDeleted: map[string]bool{}, DeletedSeen: map[string]bool{}, DeletedSeq: map[string]uint64{}, Direct: map[string]int{}, Fuzzy: map[string]bool{}, Cache: map[string]*CRes{}, Revoked: map[string]int{}, CIdx: -1}
+		F3rids: map[string]bool{}, F3bRids: map[string]bool{}, directSince: map[string]int{}, UnsubReasons: map[string]string{}, ErrSeen: map[string]bool{}, ivFail: map[string]string{}, getSet: map[string]int{}, lostHolder: map[string]bool{}, derivedDeleted: map[string]bool{}, DeletedSeen: map[string]bool{}, DeletedSeq: map[string]uint64{}, Direct: map[string]int{}, Fuzzy: map[string]bool{}, Cache: map[string]*CRes{}, Revoked: map[string]int{}, CIdx: -1}
 	c.Name = fmt.Sprintf("k%d", c.Idx)
 	s.Clients = append(s.Clients, c)
 	return c
@@ -870,9 +873,15 @@ func (c *Client) onEvent(f *Frame) {
 		c.Revoked[rid] = f.Step
 		// known finding F-3b: an unsubscribe event also removes the provisional
 		// counts of requests still in flight for the same rid
-		if c.Tainted == "" && c.provisionalRID(rid, nil) {
-			c.Tainted = "F-3b"
-			s.stat("tainted_clients_unsub_event", 1)
+		if c.provisionalRID(rid, nil) {
+			// (the direct count of that subscription is wrong from now on, for as
+			// long as something keeps it alive: the pending request releases a
+			// count that the event has already removed)
+			c.F3bRids[rid] = true
+			if c.Tainted == "" {
+				c.Tainted = "F-3b"
+				s.stat("tainted_clients_unsub_event", 1)
+			}
 		}
 		if held != nil {
 			c.closeInterval(held, "unsubscribe")
